@@ -2,7 +2,9 @@
 EXTENDS Benchmarks
 Vals == {1, 2, 3, NaN}
 Perm(n) == {p \in [1..n -> 1..n] : \A a, b \in 1..n : a # b => p[a] # p[b]}
-MCHist == UNION {{[i \in 1..n |-> [age |-> p[i], val |-> v[i]]] : p \in Perm(n), v \in [1..n -> Vals]} : n \in 1..3}
+HistsUpTo(N) == UNION {{[i \in 1..n |-> [age |-> p[i], val |-> v[i]]] : p \in Perm(n), v \in [1..n -> Vals]} : n \in 1..N}
+MCHist == HistsUpTo(3)
+MCHist4 == HistsUpTo(4)        \* thorough tier
 AgeSeqs == {<<-1, 1>>, <<0, 1, 2>>, <<-2, 0, 1>>, <<1>>}
 MCLme == UNION {{[ages |-> a, ys |-> y, b0 |-> b0, b1 |-> b1, c11 |-> c11, c12 |-> c12, c22 |-> 2, slope |-> s] :
                    y \in [1..Len(a) -> {-1, 0, 2}], b0 \in {0, 1}, b1 \in {-1, 1}, c11 \in {1, 3}, c12 \in {0, 1}, s \in BOOLEAN} : a \in AgeSeqs}
